@@ -1,4 +1,651 @@
-/-! Model/C04 — executable model (core Lean only; imports only NibabelModel.Basic.* / other Model files). -/
+/-
+  Model/C04 — executable model of the code that carries the voxel-to-world affine through
+  save/load (core Lean only).
+
+  Python source modelled (pinned tree):
+  * nibabel/quaternions.py        fillpositive (39-102, the threshold decision), quat2mat (105-153),
+                                  mat2quat (156-231: K matrix, eigenvector re-ordering, sign rule)
+  * nibabel/nifti1.py             Nifti1Header.get_best_affine (903-910), get_qform (1125-1168),
+                                  set_qform (1170-1270, incl. the renormalisation of the `fix:` commit),
+                                  get_sform, set_sform,
+                                  Nifti1Pair.__init__ (…2008-2010), Nifti1Pair._affine2header (2041-2047)
+  * nibabel/nifti2.py             quaternion_threshold (145)
+  * nibabel/analyze.py            AnalyzeHeader.get_base_affine (636-662), AnalyzeImage.from_file_map
+                                  (…972), to_file_map (update_header call)
+  * nibabel/spatialimages.py      SpatialImage.__init__ / update_header (531-558), _affine2header (560-569)
+  * nibabel/spm99analyze.py       get_origin_affine (98-151), Spm99AnalyzeImage.from_file_map (237-300),
+                                  to_file_map (302-333): `.mat` with 1-based shift and x flip
+  * nibabel/freesurfer/mghformat.py   MGHHeader.get_affine (177-187), MGHImage._affine2header (580-593)
+  * nibabel/volumeutils.py        shape_zoom_affine (1302-1365)
+  * nibabel/affines.py            from_matvec (dtype of the matrix), voxel_sizes
+
+  Conventions
+  * The algebra is written over an arbitrary commutative ring `α` (`Lean.Grind.CommRing`) or, where the
+    code divides, field (`Lean.Grind.Field`) — core classes; `Rat` is an instance — with the coordinates spelled out, so that the theorems hold for every field and the
+    driver runs the same definitions at `Rat`.
+  * An affine is its top three rows (`Aff`): the bottom row is always `0 0 0 1`.
+  * NumPy's numeric routines are PARAMETERS (structure `Ext`), each with its contract in a comment:
+    storage rounding, `sqrt`, the polar factor obtained from `svd`, the top eigenvector from `eigh`,
+    and `np.allclose`.  Decisions (which branch, which sign, which code) are modelled in full.
+-/
 namespace Nb.C04
+open Lean.Grind
+
+structure V3 (α : Type) where
+  x : α
+  y : α
+  z : α
+  deriving DecidableEq, Repr, Inhabited
+
+structure M33 (α : Type) where
+  a00 : α
+  a01 : α
+  a02 : α
+  a10 : α
+  a11 : α
+  a12 : α
+  a20 : α
+  a21 : α
+  a22 : α
+  deriving DecidableEq, Repr, Inhabited
+
+/-- top three rows of a 4x4 affine: linear part `m`, translation column `t` -/
+structure Aff (α : Type) where
+  m : M33 α
+  t : V3 α
+  deriving DecidableEq, Repr, Inhabited
+
+/-- quaternion in nibabel's order w, x, y, z -/
+structure Quat (α : Type) where
+  w : α
+  x : α
+  y : α
+  z : α
+  deriving DecidableEq, Repr, Inhabited
+
+/-- lower triangle of the symmetric 4x4 matrix `K` of `mat2quat` (index order x, y, z, w as in the
+    source: "Fill only lower half of symmetric matrix") -/
+structure K4 (α : Type) where
+  k00 : α
+  k10 : α
+  k11 : α
+  k20 : α
+  k21 : α
+  k22 : α
+  k30 : α
+  k31 : α
+  k32 : α
+  k33 : α
+  deriving DecidableEq, Repr, Inhabited
+
+/-- a 4-vector in K's index order (x, y, z, w) -/
+structure V4 (α : Type) where
+  v0 : α
+  v1 : α
+  v2 : α
+  v3 : α
+  deriving DecidableEq, Repr, Inhabited
+
+section algebra
+variable {α : Type}
+
+def V3.map {β : Type} (f : α → β) (v : V3 α) : V3 β := ⟨f v.x, f v.y, f v.z⟩
+def M33.map {β : Type} (f : α → β) (m : M33 α) : M33 β :=
+  ⟨f m.a00, f m.a01, f m.a02, f m.a10, f m.a11, f m.a12, f m.a20, f m.a21, f m.a22⟩
+def Aff.map {β : Type} (f : α → β) (a : Aff α) : Aff β := ⟨a.m.map f, a.t.map f⟩
+
+def M33.transpose (m : M33 α) : M33 α :=
+  ⟨m.a00, m.a10, m.a20, m.a01, m.a11, m.a21, m.a02, m.a12, m.a22⟩
+
+variable [CommRing α]
+
+def V3.add (a b : V3 α) : V3 α := ⟨a.x + b.x, a.y + b.y, a.z + b.z⟩
+def V3.sub (a b : V3 α) : V3 α := ⟨a.x - b.x, a.y - b.y, a.z - b.z⟩
+def V3.neg (a : V3 α) : V3 α := ⟨-a.x, -a.y, -a.z⟩
+def V3.smul (c : α) (a : V3 α) : V3 α := ⟨c * a.x, c * a.y, c * a.z⟩
+/-- elementwise product (NumPy `a * b` on 1-D arrays) -/
+def V3.hmul (a b : V3 α) : V3 α := ⟨a.x * b.x, a.y * b.y, a.z * b.z⟩
+
+def M33.one : M33 α := ⟨1, 0, 0, 0, 1, 0, 0, 0, 1⟩
+def M33.diag (d : V3 α) : M33 α := ⟨d.x, 0, 0, 0, d.y, 0, 0, 0, d.z⟩
+
+def M33.mul (a b : M33 α) : M33 α :=
+  ⟨a.a00 * b.a00 + a.a01 * b.a10 + a.a02 * b.a20,
+   a.a00 * b.a01 + a.a01 * b.a11 + a.a02 * b.a21,
+   a.a00 * b.a02 + a.a01 * b.a12 + a.a02 * b.a22,
+   a.a10 * b.a00 + a.a11 * b.a10 + a.a12 * b.a20,
+   a.a10 * b.a01 + a.a11 * b.a11 + a.a12 * b.a21,
+   a.a10 * b.a02 + a.a11 * b.a12 + a.a12 * b.a22,
+   a.a20 * b.a00 + a.a21 * b.a10 + a.a22 * b.a20,
+   a.a20 * b.a01 + a.a21 * b.a11 + a.a22 * b.a21,
+   a.a20 * b.a02 + a.a21 * b.a12 + a.a22 * b.a22⟩
+
+def M33.mulVec (a : M33 α) (v : V3 α) : V3 α :=
+  ⟨a.a00 * v.x + a.a01 * v.y + a.a02 * v.z,
+   a.a10 * v.x + a.a11 * v.y + a.a12 * v.z,
+   a.a20 * v.x + a.a21 * v.y + a.a22 * v.z⟩
+
+def M33.det (m : M33 α) : α :=
+  m.a00 * (m.a11 * m.a22 - m.a12 * m.a21) - m.a01 * (m.a10 * m.a22 - m.a12 * m.a20)
+    + m.a02 * (m.a10 * m.a21 - m.a11 * m.a20)
+
+/-- `M * d` with `d` broadcast along the last axis: column `j` scaled by `d_j` (= `M · diag d`) -/
+def M33.scaleCols (m : M33 α) (d : V3 α) : M33 α :=
+  ⟨m.a00 * d.x, m.a01 * d.y, m.a02 * d.z,
+   m.a10 * d.x, m.a11 * d.y, m.a12 * d.z,
+   m.a20 * d.x, m.a21 * d.y, m.a22 * d.z⟩
+
+/-- `np.sum(RZS * RZS, axis=0)`: squared column norms -/
+def M33.colNorm2 (m : M33 α) : V3 α :=
+  ⟨m.a00 * m.a00 + m.a10 * m.a10 + m.a20 * m.a20,
+   m.a01 * m.a01 + m.a11 * m.a11 + m.a21 * m.a21,
+   m.a02 * m.a02 + m.a12 * m.a12 + m.a22 * m.a22⟩
+
+/-- `R[:, -1] *= -1` -/
+def M33.negLastCol (m : M33 α) : M33 α :=
+  ⟨m.a00, m.a01, -m.a02, m.a10, m.a11, -m.a12, m.a20, m.a21, -m.a22⟩
+
+/-- apply an affine to a point -/
+def Aff.apply (a : Aff α) (v : V3 α) : V3 α := (a.m.mulVec v).add a.t
+
+/-- `np.dot(A, T)` where `T` is the identity with translation column `v` (`to_111`, `from_111`) -/
+def Aff.mulShift (a : Aff α) (v : V3 α) : Aff α := ⟨a.m, (a.m.mulVec v).add a.t⟩
+
+/-- `np.dot(np.diag([-1, 1, 1, 1]), A)`: first row negated -/
+def Aff.flipX (a : Aff α) : Aff α :=
+  ⟨⟨-a.m.a00, -a.m.a01, -a.m.a02, a.m.a10, a.m.a11, a.m.a12, a.m.a20, a.m.a21, a.m.a22⟩,
+   ⟨-a.t.x, a.t.y, a.t.z⟩⟩
+
+/-! ### quaternions.py -/
+
+def Quat.norm2 (q : Quat α) : α := q.w * q.w + q.x * q.x + q.y * q.y + q.z * q.z
+def Quat.neg (q : Quat α) : Quat α := ⟨-q.w, -q.x, -q.y, -q.z⟩
+
+/-- symmetric matrix (given by its lower half) times vector — what `eigh` works with -/
+def K4.mulVec (k : K4 α) (v : V4 α) : V4 α :=
+  ⟨k.k00 * v.v0 + k.k10 * v.v1 + k.k20 * v.v2 + k.k30 * v.v3,
+   k.k10 * v.v0 + k.k11 * v.v1 + k.k21 * v.v2 + k.k31 * v.v3,
+   k.k20 * v.v0 + k.k21 * v.v1 + k.k22 * v.v2 + k.k32 * v.v3,
+   k.k30 * v.v0 + k.k31 * v.v1 + k.k32 * v.v2 + k.k33 * v.v3⟩
+
+/-- `vecs[[3, 0, 1, 2], argmax]`: re-order an eigenvector (x, y, z, w) to a quaternion (w, x, y, z) -/
+def V4.toQuat (v : V4 α) : Quat α := ⟨v.v3, v.v0, v.v1, v.v2⟩
+def Quat.toV4 (q : Quat α) : V4 α := ⟨q.x, q.y, q.z, q.w⟩
+
+/-! ### SPM `.mat` -/
+
+/-- translation column of `from_111` (spm99analyze.py:327-328) -/
+def from111 : V3 α := ⟨-1, -1, -1⟩
+/-- translation column of `to_111` (spm99analyze.py:297-298) -/
+def to111 : V3 α := ⟨1, 1, 1⟩
+
+/-- what `Spm99AnalyzeImage.to_file_map` puts in the `.mat` file: `(M, mat)` (318-333) -/
+def spmWriteMat (xFlip : Bool) (a : Aff α) : Aff α × Aff α :=
+  let M := if xFlip then a.flipX else a
+  (M.mulShift from111, a.mulShift from111)
+
+/-- which variables the `.mat` file holds when read -/
+inductive MatMode where
+  | both     -- 'mat' and 'M' (what nibabel writes): 'mat' wins
+  | mOnly    -- only 'M' (files written by SPM itself): flip applied by the reader
+  | none     -- no / empty `.mat` file: header affine is kept
+  deriving DecidableEq, Repr, Inhabited
+
+/-- `Spm99AnalyzeImage.from_file_map` (282-300): the affine taken from the `.mat` contents -/
+def spmReadMat (xFlip : Bool) (mode : MatMode) (stored : Aff α × Aff α) (hdrAffine : Aff α) : Aff α :=
+  match mode with
+  | .both => stored.2.mulShift to111
+  | .mOnly => (if xFlip then stored.1.flipX else stored.1).mulShift to111
+  | .none => hdrAffine
+
+end algebra
+
+section fieldAlgebra
+variable {α : Type} [Field α]
+
+/-- `M / d` broadcast along the last axis: column `j` divided by `d_j` -/
+def M33.divCols (m : M33 α) (d : V3 α) : M33 α :=
+  ⟨m.a00 / d.x, m.a01 / d.y, m.a02 / d.z,
+   m.a10 / d.x, m.a11 / d.y, m.a12 / d.z,
+   m.a20 / d.x, m.a21 / d.y, m.a22 / d.z⟩
+
+/-- `quat2mat` (quaternions.py:140-153) for `Nq ≥ FLOAT_EPS`; the guard is in `quat2matG` -/
+def quat2mat (q : Quat α) : M33 α :=
+  let s := 2 / q.norm2
+  let X := q.x * s
+  let Y := q.y * s
+  let Z := q.z * s
+  let wX := q.w * X
+  let wY := q.w * Y
+  let wZ := q.w * Z
+  let xX := q.x * X
+  let xY := q.x * Y
+  let xZ := q.x * Z
+  let yY := q.y * Y
+  let yZ := q.y * Z
+  let zZ := q.z * Z
+  ⟨1 - (yY + zZ), xY - wZ, xZ + wY,
+   xY + wZ, 1 - (xX + zZ), yZ - wX,
+   xZ - wY, yZ + wX, 1 - (xX + yY)⟩
+
+/-- the matrix `K` of `mat2quat` (quaternions.py:204-216), lower half, `/ 3.0` included.
+    `Qyx` is `M[0,1]` etc. (`Qxx, Qyx, Qzx, Qxy, Qyy, Qzy, Qxz, Qyz, Qzz = M.flat`). -/
+def kMatrix (m : M33 α) : K4 α :=
+  let Qxx := m.a00
+  let Qyx := m.a01
+  let Qzx := m.a02
+  let Qxy := m.a10
+  let Qyy := m.a11
+  let Qzy := m.a12
+  let Qxz := m.a20
+  let Qyz := m.a21
+  let Qzz := m.a22
+  ⟨(Qxx - Qyy - Qzz) / 3,
+   (Qyx + Qxy) / 3, (Qyy - Qxx - Qzz) / 3,
+   (Qzx + Qxz) / 3, (Qzy + Qyz) / 3, (Qzz - Qxx - Qyy) / 3,
+   (Qyz - Qzy) / 3, (Qzx - Qxz) / 3, (Qxy - Qyx) / 3, (Qxx + Qyy + Qzz) / 3⟩
+
+/-- `shape_zoom_affine` (volumeutils.py:1346-1365) on the already padded/truncated 3-vectors:
+    `origin = (shape - 1) / 2`, `aff = diag(zooms)`, translation `-origin * zooms`, x zoom negated
+    when `x_flip`. -/
+def shapeZoomAffine3 (shape zooms : V3 α) (xFlip : Bool) : Aff α :=
+  let zooms : V3 α := if xFlip then ⟨zooms.x * (-1), zooms.y, zooms.z⟩ else zooms
+  let origin : V3 α := ⟨(shape.x - 1) / 2, (shape.y - 1) / 2, (shape.z - 1) / 2⟩
+  ⟨M33.diag zooms, (origin.neg).hmul zooms⟩
+
+/-- the three affine-carrying fields of an MGH header (all stored as big-endian float32) -/
+structure MghFields (α : Type) where
+  delta : V3 α
+  /-- `hdr['Mdc']` as stored, i.e. the TRANSPOSE of the direction-cosine matrix -/
+  mdc : M33 α
+  pxyzC : V3 α
+  deriving DecidableEq, Repr, Inhabited
+
+/-- `MGHImage._affine2header` (580-593) with the voxel sizes (`voxel_sizes(affine)`, a `sqrt`) given:
+    `Mdc = affine[:3,:3] / voxelsize`, `c_ras = affine · (shape/2, 1)`, `hdr['Mdc'] = Mdc.T`.
+    `rnd` is the rounding on assignment into the float32 fields. -/
+def mghAffine2Header (rnd : α → α) (a : Aff α) (shape : V3 α) (voxelsize : V3 α) : MghFields α :=
+  let Mdc := a.m.divCols voxelsize
+  let cRas := a.apply ⟨shape.x / 2, shape.y / 2, shape.z / 2⟩
+  ⟨voxelsize.map rnd, Mdc.transpose.map rnd, cRas.map rnd⟩
+
+/-- `MGHHeader.get_affine` (177-187): `MdcD = Mdc.T * delta` (float32 product: `rnd`),
+    `vol_center = MdcD · dims[:3] / 2`, `from_matvec(MdcD, Pxyz_c - vol_center)` (translation cast
+    to the matrix dtype: `rnd`). -/
+def mghGetAffine (rnd : α → α) (h : MghFields α) (dims : V3 α) : Aff α :=
+  let MdcD := (h.mdc.transpose.scaleCols h.delta).map rnd
+  let vc := MdcD.mulVec dims
+  let volCenter : V3 α := ⟨vc.x / 2, vc.y / 2, vc.z / 2⟩
+  ⟨MdcD, (h.pxyzC.sub volCenter).map rnd⟩
+
+end fieldAlgebra
+
+/-! ## Decisions and flows (over `Rat`: they need the order) -/
+
+/-- NumPy routines that are not modelled; each enters as a function with the stated contract. -/
+structure Ext where
+  /-- rounding on assignment into a header field (float32 for NIfTI-1, Analyze, MGH; identity for
+      NIfTI-2).  Contract: idempotent, `rnd 0 = 0`, `rnd 1 = 1`, `rnd (-x) = -rnd x`. -/
+  rnd : Rat → Rat
+  /-- `np.sqrt`.  Contract: `0 ≤ x → sqrt (x * x) = x`. -/
+  sqrt : Rat → Rat
+  /-- `P @ Qs` for `P, S, Qs = svd(R)`: orthogonal polar factor.  Contract: `R·Rᵀ = 1 → polar R = R`. -/
+  polar : M33 Rat → M33 Rat
+  /-- `vecs[:, argmax(vals)]` of `eigh(K)`, in K's order (x, y, z, w).  Contract: a unit vector `v`
+      with `K v = λmax v`. -/
+  topEig : K4 Rat → V4 Rat
+  /-- `np.allclose(a, b)` on the two affines (a = image affine, b = header affine) -/
+  allclose : Aff Rat → Aff Rat → Bool
+
+inductive Err where
+  | header     -- HeaderDataError
+  | value      -- ValueError
+  deriving DecidableEq, Repr, Inhabited
+
+deriving instance DecidableEq for Except
+
+def absR (x : Rat) : Rat := if x < 0 then -x else x
+
+/-- `fillpositive(xyz, w2_thresh)` (quaternions.py:88-102): the decision on `w2 = 1 - xyz·xyz` -/
+def fillpositive (sqrt : Rat → Rat) (thr : Rat) (bcd : V3 Rat) : Except Err (Quat Rat) :=
+  let w2 := 1 - (bcd.x * bcd.x + bcd.y * bcd.y + bcd.z * bcd.z)
+  if absR w2 < absR thr then .ok ⟨0, bcd.x, bcd.y, bcd.z⟩
+  else if w2 < 0 then .error .value
+  else .ok ⟨sqrt w2, bcd.x, bcd.y, bcd.z⟩
+
+/-- `quat2mat` with its guard `if Nq < FLOAT_EPS: return np.eye(3)` (quaternions.py:141-143) -/
+def quat2matG (floatEps : Rat) (q : Quat Rat) : M33 Rat :=
+  if q.norm2 < floatEps then M33.one else quat2mat q
+
+/-- `mat2quat` (quaternions.py:200-231) given the eigenvector routine -/
+def mat2quat (topEig : K4 Rat → V4 Rat) (m : M33 Rat) : Quat Rat :=
+  let q := (topEig (kMatrix m)).toQuat
+  if q.w < 0 then q.neg else q
+
+/-- the affine-carrying fields of a NIfTI-1/2 header (values as stored, i.e. already rounded) -/
+structure NHdr where
+  /-- `dim[1 : ndim+1]` -/
+  shape : List Nat
+  sformCode : Nat
+  srow : Aff Rat
+  qformCode : Nat
+  /-- `pixdim[0]` -/
+  qfac : Rat
+  /-- `pixdim[1:4]` -/
+  pixdim : V3 Rat
+  /-- `quatern_b, quatern_c, quatern_d` -/
+  quat : V3 Rat
+  /-- `qoffset_x, qoffset_y, qoffset_z` -/
+  qoff : V3 Rat
+  deriving DecidableEq, Repr, Inhabited
+
+/-- format constants of a NIfTI flavour -/
+structure NFmt where
+  /-- `quaternion_threshold` (nifti1.py:845, nifti2.py:145) -/
+  quatThr : Rat
+  /-- `quaternions.FLOAT_EPS` -/
+  floatEps : Rat
+
+def natsToV3 (l : List Nat) (dflt : Rat) : V3 Rat :=
+  ⟨(l[0]?.map (fun n : Nat => (n : Rat))).getD dflt, (l[1]?.map (fun n : Nat => (n : Rat))).getD dflt,
+   (l[2]?.map (fun n : Nat => (n : Rat))).getD dflt⟩
+
+/-- `shape_zoom_affine(shape, zooms, x_flip)` (volumeutils.py:1346-1365) called with
+    `dim[1:ndim+1]` and `pixdim[1:ndim+1]`: the first three axes, missing ones filled with 1. -/
+def shapeZoomAffine (shape : List Nat) (pixdim : V3 Rat) (xFlip : Bool) : Aff Rat :=
+  let nd := shape.length
+  let zooms : V3 Rat := ⟨if 0 < nd then pixdim.x else 1, if 1 < nd then pixdim.y else 1,
+                         if 2 < nd then pixdim.z else 1⟩
+  shapeZoomAffine3 (natsToV3 shape 1) zooms xFlip
+
+/-- `AnalyzeHeader.get_base_affine` (analyze.py:636-660); `default_x_flip = True` -/
+def NHdr.baseAffine (h : NHdr) : Aff Rat := shapeZoomAffine h.shape h.pixdim true
+
+/-- `get_sform()` (nifti1.py:1288-1297) without `coded` -/
+def NHdr.getSform (h : NHdr) : Aff Rat := h.srow
+
+/-- `set_sform(affine, code)` with an explicit code (nifti1.py:1344-1360) -/
+def NHdr.setSform (E : Ext) (h : NHdr) (a : Option (Aff Rat)) (code : Nat) : NHdr :=
+  match a with
+  | none => { h with sformCode := code }
+  | some a => { h with sformCode := code, srow := a.map E.rnd }
+
+/-- `get_qform()` (nifti1.py:1147-1168) without `coded` -/
+def NHdr.getQform (E : Ext) (f : NFmt) (h : NHdr) : Except Err (Aff Rat) :=
+  match fillpositive E.sqrt f.quatThr h.quat with
+  | .error e => .error e
+  | .ok quat =>
+    let R := quat2matG f.floatEps quat
+    if h.pixdim.x < 0 ∨ h.pixdim.y < 0 ∨ h.pixdim.z < 0 then .error .header
+    else if h.qfac ≠ 1 ∧ h.qfac ≠ -1 then .error .header
+    else
+      let vox : V3 Rat := ⟨h.pixdim.x, h.pixdim.y, h.pixdim.z * h.qfac⟩
+      .ok ⟨R.scaleCols vox, h.qoff⟩
+
+/-- `quat / np.sqrt(quat @ quat)` (nifti1.py:1264-1265, added by the `fix:` commit "set_qform renormalizes
+    the quaternion") -/
+def Quat.normalize (sqrt : Rat → Rat) (q : Quat Rat) : Quat Rat :=
+  let n := sqrt q.norm2
+  ⟨q.w / n, q.x / n, q.y / n, q.z / n⟩
+
+/-- the numeric core of `set_qform` (nifti1.py:1239-1270): zooms, qfac by the sign of the
+    determinant, flip of the last column, polar factor, quaternion, renormalisation.  Returns
+    `(qfac, zooms, (b, c, d))` before rounding into the header. -/
+def qformParams (E : Ext) (m : M33 Rat) : Rat × V3 Rat × V3 Rat :=
+  let zooms := m.colNorm2.map E.sqrt
+  let R := m.divCols zooms
+  let (qfac, R) := if R.det > 0 then ((1 : Rat), R) else ((-1 : Rat), R.negLastCol)
+  let PR := E.polar R
+  let quat := (mat2quat E.topEig PR).normalize E.sqrt
+  (qfac, zooms, ⟨quat.x, quat.y, quat.z⟩)
+
+/-- ORIGINAL (pinned) logic of `set_qform`: the eigenvector from `eigh` went into the header as it
+    came; a norm a few ulps above 1 made `fillpositive` refuse the header on reading (NIfTI-2
+    threshold `3·eps64`) — see `qform_orig_counterexample`. -/
+def qformParamsOrig (E : Ext) (m : M33 Rat) : Rat × V3 Rat × V3 Rat :=
+  let zooms := m.colNorm2.map E.sqrt
+  let R := m.divCols zooms
+  let (qfac, R) := if R.det > 0 then ((1 : Rat), R) else ((-1 : Rat), R.negLastCol)
+  let PR := E.polar R
+  let quat := mat2quat E.topEig PR
+  (qfac, zooms, ⟨quat.x, quat.y, quat.z⟩)
+
+/-- the header fields `set_qform` writes from the numeric core -/
+def NHdr.putQform (E : Ext) (h : NHdr) (code : Nat) (t : V3 Rat) (p : Rat × V3 Rat × V3 Rat) : NHdr :=
+  { h with qformCode := code, qoff := t.map E.rnd, qfac := E.rnd p.1,
+           pixdim := p.2.1.map E.rnd, quat := p.2.2.map E.rnd }
+
+/-- `set_qform(affine, code)` with an explicit code (nifti1.py:1226-1270) -/
+def NHdr.setQform (E : Ext) (h : NHdr) (a : Option (Aff Rat)) (code : Nat) : NHdr :=
+  match a with
+  | none => { h with qformCode := code }
+  | some a => h.putQform E code a.t (qformParams E a.m)
+
+/-- `set_qform` of the pinned tree (no renormalisation) -/
+def NHdr.setQformOrig (E : Ext) (h : NHdr) (a : Aff Rat) (code : Nat) : NHdr :=
+  h.putQform E code a.t (qformParamsOrig E a.m)
+
+/-- `Nifti1Header.get_best_affine` (nifti1.py:903-910) -/
+def NHdr.bestAffine (E : Ext) (f : NFmt) (h : NHdr) : Except Err (Aff Rat) :=
+  if h.sformCode ≠ 0 then .ok h.getSform
+  else if h.qformCode ≠ 0 then h.getQform E f
+  else .ok h.baseAffine
+
+/-- `Nifti1Pair._affine2header` (nifti1.py:2041-2047): sform 'aligned' (2), qform 'unknown' (0) -/
+def NHdr.affine2header (E : Ext) (h : NHdr) (a : Aff Rat) : NHdr :=
+  (h.setSform E (some a) 2).setQform E (some a) 0
+
+/-- `SpatialImage.update_header` (spatialimages.py:531-558) for a NIfTI header; the shape is
+    already the data shape in every flow below -/
+def NHdr.updateHeader (E : Ext) (f : NFmt) (h : NHdr) (a : Aff Rat) : Except Err NHdr :=
+  match h.bestAffine E f with
+  | .error e => .error e
+  | .ok best => if E.allclose a best then .ok h else .ok (h.affine2header E a)
+
+def defaultNHdr (shape : List Nat) : NHdr :=
+  { shape := shape, sformCode := 0, srow := ⟨⟨0, 0, 0, 0, 0, 0, 0, 0, 0⟩, ⟨0, 0, 0⟩⟩, qformCode := 0,
+    qfac := 1, pixdim := ⟨1, 1, 1⟩, quat := ⟨0, 0, 0⟩, qoff := ⟨0, 0, 0⟩ }
+
+/-- what the loaded image shows: `.affine`, `get_sform(coded=True)`, `get_qform(coded=True)` -/
+structure NOut where
+  affine : Aff Rat
+  sform : Option (Aff Rat) × Nat
+  qform : Option (Aff Rat) × Nat
+  deriving DecidableEq, Repr
+
+/-- `get_sform(coded=True)` / `get_qform(coded=True)` -/
+def NHdr.sformCoded (h : NHdr) : Option (Aff Rat) × Nat :=
+  if h.sformCode = 0 then (none, 0) else (some h.getSform, h.sformCode)
+
+def NHdr.qformCoded (E : Ext) (f : NFmt) (h : NHdr) : Except Err (Option (Aff Rat) × Nat) :=
+  if h.qformCode = 0 then .ok (none, 0)
+  else match h.getQform E f with
+    | .error e => .error e
+    | .ok a => .ok (some a, h.qformCode)
+
+/-- the header an image carries when it is written: `Klass(data, affine, header)` then
+    `to_file_map` (`SpatialImage.__init__` → `update_header`; `Nifti1Pair.__init__` forces
+    `_affine2header` when no header was given; `to_file_map` → `update_header`). -/
+def niftiSavedHeader (E : Ext) (f : NFmt) (shape : List Nat) (a : Aff Rat) (hdr : Option NHdr) :
+    Except Err NHdr := do
+  let h0 := match hdr with
+    | none => defaultNHdr shape
+    | some h => { h with shape := shape }
+  let h1 ← h0.updateHeader E f a
+  let h2 := if hdr.isNone then h1.affine2header E a else h1
+  h2.updateHeader E f a
+
+/-- `load(save(img))`: the header fields are already stored-precision values, the byte level is
+    the identity (property C10), the loader takes `header.get_best_affine()` (analyze.py:972). -/
+def niftiRoundtrip (E : Ext) (f : NFmt) (shape : List Nat) (a : Aff Rat) (hdr : Option NHdr) :
+    Except Err NOut := do
+  let h ← niftiSavedHeader E f shape a hdr
+  let aff ← h.bestAffine E f
+  let q ← h.qformCoded E f
+  pure ⟨aff, h.sformCoded, q⟩
+
+/-! ### Analyze / SPM -/
+
+/-- affine-carrying fields of an Analyze / SPM header -/
+structure AHdr where
+  shape : List Nat
+  /-- `pixdim[1:4]` -/
+  pixdim : V3 Rat
+  /-- SPM `origin[:3]` (int16); ignored by plain Analyze -/
+  origin : V3 Int
+  deriving DecidableEq, Repr, Inhabited
+
+inductive AKind where
+  | analyze | spm
+  deriving DecidableEq, Repr, Inhabited
+
+def intV3 (v : V3 Int) : V3 Rat := ⟨(v.x : Rat), (v.y : Rat), (v.z : Rat)⟩
+
+/-- `Spm99AnalyzeHeader.get_origin_affine` (spm99analyze.py:133-151).  `dims = dim[1:4]`
+    (entries past `ndim` are 1). -/
+def AHdr.originAffine (h : AHdr) : Aff Rat :=
+  let zooms : V3 Rat := ⟨h.pixdim.x * (-1), h.pixdim.y, h.pixdim.z⟩
+  let dimsN := natsToV3 h.shape 1
+  let o := h.origin
+  let dI : V3 Int := ⟨(h.shape[0]?.getD 1 : Nat), (h.shape[1]?.getD 1 : Nat), (h.shape[2]?.getD 1 : Nat)⟩
+  let anyO := o.x ≠ 0 ∨ o.y ≠ 0 ∨ o.z ≠ 0
+  let gtNeg := o.x > -dI.x ∧ o.y > -dI.y ∧ o.z > -dI.z
+  let lt2 := o.x < dI.x * 2 ∧ o.y < dI.y * 2 ∧ o.z < dI.z * 2
+  let origin : V3 Rat :=
+    if anyO ∧ gtNeg ∧ lt2 then intV3 ⟨o.x - 1, o.y - 1, o.z - 1⟩
+    else ⟨(dimsN.x - 1) / 2, (dimsN.y - 1) / 2, (dimsN.z - 1) / 2⟩
+  ⟨M33.diag zooms, (origin.neg).hmul zooms⟩
+
+def AHdr.bestAffine (k : AKind) (h : AHdr) : Aff Rat :=
+  match k with
+  | .analyze => shapeZoomAffine h.shape h.pixdim true
+  | .spm => h.originAffine
+
+/-- `SpatialImage._affine2header` (spatialimages.py:560-569): the first `min(ndim, 3)` zooms become
+    the column norms of the affine -/
+def AHdr.affine2header (E : Ext) (h : AHdr) (a : Aff Rat) : AHdr :=
+  let vox := (a.m.colNorm2.map E.sqrt).map E.rnd
+  let nd := h.shape.length
+  { h with pixdim := ⟨if 0 < nd then vox.x else h.pixdim.x, if 1 < nd then vox.y else h.pixdim.y,
+                      if 2 < nd then vox.z else h.pixdim.z⟩ }
+
+def AHdr.updateHeader (E : Ext) (k : AKind) (h : AHdr) (a : Aff Rat) : AHdr :=
+  if E.allclose a (h.bestAffine k) then h else h.affine2header E a
+
+def defaultAHdr (shape : List Nat) : AHdr := ⟨shape, ⟨1, 1, 1⟩, ⟨0, 0, 0⟩⟩
+
+/-- loaded affine and loaded `pixdim[1:4]` -/
+structure AOut where
+  affine : Aff Rat
+  pixdim : V3 Rat
+  deriving DecidableEq, Repr
+
+/-- `load(save(Klass(data, affine, header)))` for AnalyzeImage / Spm99AnalyzeImage / Spm2AnalyzeImage.
+    `mode` says what the `.mat` file holds at load time (ignored by plain Analyze). -/
+def analyzeRoundtrip (E : Ext) (k : AKind) (shape : List Nat) (a : Aff Rat) (hdr : Option AHdr)
+    (mode : MatMode) : AOut :=
+  let h0 := match hdr with
+    | none => defaultAHdr shape
+    | some h => { h with shape := shape }
+  let h1 := h0.updateHeader E k a
+  let h2 := h1.updateHeader E k a
+  let hdrAff := h2.bestAffine k
+  match k with
+  | .analyze => ⟨hdrAff, h2.pixdim⟩
+  | .spm => ⟨spmReadMat true mode (spmWriteMat true a) hdrAff, h2.pixdim⟩
+
+/-! ### MGH -/
+
+structure MHdr where
+  /-- `dims[:3]` -/
+  dims : V3 Rat
+  f : MghFields Rat
+  deriving DecidableEq, Repr, Inhabited
+
+/-- default MGH header (mghformat.py `default_structarr`): delta 1, Mdc rows (-1,0,0),(0,0,1),(0,-1,0),
+    Pxyz_c 0 -/
+def defaultMHdr (dims : V3 Rat) : MHdr :=
+  ⟨dims, ⟨⟨1, 1, 1⟩, ⟨-1, 0, 0, 0, 0, 1, 0, -1, 0⟩, ⟨0, 0, 0⟩⟩⟩
+
+def MHdr.getAffine (E : Ext) (h : MHdr) : Aff Rat := mghGetAffine E.rnd h.f h.dims
+
+def MHdr.updateHeader (E : Ext) (h : MHdr) (a : Aff Rat) : MHdr :=
+  if E.allclose a (h.getAffine E) then h
+  else { h with f := mghAffine2Header E.rnd a h.dims (a.m.colNorm2.map E.sqrt) }
+
+/-- `load(save(MGHImage(data, affine, header)))`: affine and the stored fields -/
+def mghRoundtrip (E : Ext) (dims : V3 Rat) (a : Aff Rat) (hdr : Option MHdr) : Aff Rat × MghFields Rat :=
+  let h0 := match hdr with
+    | none => defaultMHdr dims
+    | some h => { h with dims := dims }
+  let h1 := h0.updateHeader E a
+  let h2 := h1.updateHeader E a
+  (h2.getAffine E, h2.f)
+
+/-! ### executable instances of the external routines on the inputs where they are exact -/
+
+def pow2 (e : Int) : Rat := if e ≥ 0 then ((2 ^ e.toNat : Nat) : Rat) else 1 / ((2 ^ (-e).toNat : Nat) : Rat)
+
+/-- round to nearest, ties to even, to a binary floating-point format with `p` significand bits and
+    minimum normal exponent `emin` (no overflow: callers stay below the format's maximum).
+    float32 = `roundBin 24 (-126)`, float64 = `roundBin 53 (-1022)`. -/
+def roundBin (p : Nat) (emin : Int) (x : Rat) : Rat :=
+  if x = 0 then 0 else
+  let a := absR x
+  -- e with 2^e ≤ a < 2^(e+1)
+  let e0 : Int := (Nat.log2 a.num.natAbs : Int) - (Nat.log2 a.den : Int)
+  let e : Int := if a < pow2 e0 then e0 - 1 else if a ≥ pow2 (e0 + 1) then e0 + 1 else e0
+  let q : Int := (if e < emin then emin else e) - ((p : Int) - 1)
+  let m := a / pow2 q
+  let fl := m.floor
+  let d := m - (fl : Rat)
+  let r : Int := if d < 1 / 2 then fl else if d > 1 / 2 then fl + 1 else (if fl % 2 = 0 then fl else fl + 1)
+  let y := (r : Rat) * pow2 q
+  if x < 0 then -y else y
+
+def roundF32 : Rat → Rat := roundBin 24 (-126)
+
+def natSqrtExact? (n : Nat) : Option Nat :=
+  let s := Nat.sqrt n
+  if s * s = n then some s else none
+
+/-- exact square root of a rational square; otherwise a rational approximation from below
+    (precision 2^-80), used only where the value is not observed -/
+def sqrtQ (x : Rat) : Rat :=
+  if x ≤ 0 then 0 else
+  match natSqrtExact? x.num.natAbs, natSqrtExact? x.den with
+  | some n, some d => (n : Rat) / (d : Rat)
+  | _, _ =>
+    let sc : Nat := 2 ^ 160
+    ((Nat.sqrt (x.num.natAbs * sc / x.den) : Nat) : Rat) / ((2 ^ 80 : Nat) : Rat)
+
+def isExactSquare (x : Rat) : Bool :=
+  x ≥ 0 && (natSqrtExact? x.num.natAbs).isSome && (natSqrtExact? x.den).isSome
+
+/-- top eigenvector of `K = (4 v vᵀ - 1)/3` recovered from the matrix itself: `4 v vᵀ = 3K + 1`.
+    Exact when the entries of `v` are rational; sign fixed by the first non-zero component. -/
+def topEigQ (k : K4 Rat) : V4 Rat :=
+  let d0 := (3 * k.k00 + 1) / 4
+  let d1 := (3 * k.k11 + 1) / 4
+  let d2 := (3 * k.k22 + 1) / 4
+  let d3 := (3 * k.k33 + 1) / 4
+  if d0 > 0 then
+    let v0 := sqrtQ d0
+    ⟨v0, 3 * k.k10 / (4 * v0), 3 * k.k20 / (4 * v0), 3 * k.k30 / (4 * v0)⟩
+  else if d1 > 0 then
+    let v1 := sqrtQ d1
+    ⟨0, v1, 3 * k.k21 / (4 * v1), 3 * k.k31 / (4 * v1)⟩
+  else if d2 > 0 then
+    let v2 := sqrtQ d2
+    ⟨0, 0, v2, 3 * k.k32 / (4 * v2)⟩
+  else ⟨0, 0, 0, sqrtQ d3⟩
+
+/-- `np.allclose(a, b, rtol, atol)`: `|a - b| ≤ atol + rtol * |b|` for every entry -/
+def allcloseQ (rtol atol : Rat) (a b : Aff Rat) : Bool :=
+  let c (x y : Rat) : Bool := decide (absR (x - y) ≤ atol + rtol * absR y)
+  c a.m.a00 b.m.a00 && c a.m.a01 b.m.a01 && c a.m.a02 b.m.a02 &&
+  c a.m.a10 b.m.a10 && c a.m.a11 b.m.a11 && c a.m.a12 b.m.a12 &&
+  c a.m.a20 b.m.a20 && c a.m.a21 b.m.a21 && c a.m.a22 b.m.a22 &&
+  c a.t.x b.t.x && c a.t.y b.t.y && c a.t.z b.t.z
 
 end Nb.C04
